@@ -517,26 +517,34 @@ theorem setBytes_valid (data : Bytes) (off len : Option Int)
       rw [List.take_of_length_le (by simp)]
     | some L =>
       simp only [offD, lenD, Option.getD_none, Option.getD_some] at h1 h2 h3
-      simp only [setBytes, offD, lenD, Option.getD_none, Option.getD_some]
-      have : ¬ (L + 0 > (data.length : Int) * 8) := by omega
-      simp only [this, if_false]
+      have a1 : ¬ ((0 : Int) < 0) := by omega
+      have a2 : negLen (some L) = false := by simp [negLen]; omega
+      have a3 : ¬ ((0 : Int) > (data.length : Int) * 8) := by omega
+      have a4 : ¬ (L + 0 > (data.length : Int) * 8) := by omega
+      simp only [setBytes, offD, lenD, Option.getD_none, Option.getD_some, a1, a2, a3, a4, if_false,
+        Bool.false_eq_true]
       have := key 0 L (by omega) h2
       simpa using this
   | some o =>
     cases len with
     | none =>
       simp only [offD, lenD, Option.getD_none, Option.getD_some] at h1 h2 h3
-      simp only [setBytes, offD, lenD, Option.getD_none, Option.getD_some]
+      have a1 : ¬ (o < 0) := by omega
+      have a3 : ¬ (o > (data.length : Int) * 8) := by omega
+      simp only [setBytes, offD, lenD, Option.getD_none, Option.getD_some, a1, a3, if_false,
+        Bool.false_eq_true, negLen]
       rw [key o _ h1 (by omega)]
       congr 3
       omega
     | some L =>
       simp only [offD, lenD, Option.getD_some] at h1 h2 h3
-      simp only [setBytes, offD, lenD, Option.getD_some]
-      have : ¬ (L + o > (data.length : Int) * 8) := by omega
-      simp only [this, if_false]
+      have a1 : ¬ (o < 0) := by omega
+      have a2 : negLen (some L) = false := by simp [negLen]; omega
+      have a3 : ¬ (o > (data.length : Int) * 8) := by omega
+      have a4 : ¬ (L + o > (data.length : Int) * 8) := by omega
+      simp only [setBytes, offD, lenD, Option.getD_some, a1, a2, a3, a4, if_false,
+        Bool.false_eq_true]
       rw [key o L h1 h2]
-
 
 /-- The BytesIO branch: byte range first, then the bit window inside it. -/
 theorem bytesio_core (data : Bytes) (o L : Int) (ho : 0 ≤ o) (hL : 0 ≤ L) :
@@ -569,25 +577,33 @@ theorem setBytesIO_valid (data : Bytes) (off len : Option Int)
       rw [List.take_of_length_le (by simp)]
     | some L =>
       simp only [offD, lenD, Option.getD_none, Option.getD_some] at h1 h2 h3
-      simp only [setBytesIO, offD, lenD, Option.getD_none, Option.getD_some]
-      have : ¬ (L + (0 : Int) / 8 * 8 + 0 % 8 > (data.length : Int) * 8) := by omega
-      simp only [this, if_false]
+      have a1 : ¬ ((0 : Int) < 0) := by omega
+      have a2 : negLen (some L) = false := by simp [negLen]; omega
+      have a3 : ¬ ((0 : Int) > (data.length : Int) * 8) := by omega
+      have a4 : ¬ (L + (0 : Int) / 8 * 8 + 0 % 8 > (data.length : Int) * 8) := by omega
+      simp only [setBytesIO, offD, lenD, Option.getD_none, Option.getD_some, a1, a2, a3, a4, if_false,
+        Bool.false_eq_true]
       rw [bytesio_core data 0 L (by omega) h2]
   | some o =>
     cases len with
     | none =>
       simp only [offD, lenD, Option.getD_none, Option.getD_some] at h1 h2 h3
-      simp only [setBytesIO, offD, lenD, Option.getD_none, Option.getD_some]
-      have : ¬ ((data.length : Int) * 8 - o + o / 8 * 8 + o % 8 > (data.length : Int) * 8) := by omega
-      simp only [this, if_false]
+      have a1 : ¬ (o < 0) := by omega
+      have a3 : ¬ (o > (data.length : Int) * 8) := by omega
+      have a4 : ¬ ((data.length : Int) * 8 - o + o / 8 * 8 + o % 8 > (data.length : Int) * 8) := by omega
+      simp only [setBytesIO, offD, lenD, Option.getD_none, Option.getD_some, a1, a3, a4, if_false,
+        Bool.false_eq_true, negLen]
       rw [bytesio_core data o _ h1 (by omega)]
       congr 3
       omega
     | some L =>
       simp only [offD, lenD, Option.getD_some] at h1 h2 h3
-      simp only [setBytesIO, offD, lenD, Option.getD_some]
-      have : ¬ (L + o / 8 * 8 + o % 8 > (data.length : Int) * 8) := by omega
-      simp only [this, if_false]
+      have a1 : ¬ (o < 0) := by omega
+      have a2 : negLen (some L) = false := by simp [negLen]; omega
+      have a3 : ¬ (o > (data.length : Int) * 8) := by omega
+      have a4 : ¬ (L + o / 8 * 8 + o % 8 > (data.length : Int) * 8) := by omega
+      simp only [setBytesIO, offD, lenD, Option.getD_some, a1, a2, a3, a4, if_false,
+        Bool.false_eq_true]
       rw [bytesio_core data o L h1 h2]
 
 theorem getslice_modLen (s : Store) (a b : Option Int) : (s.getslice a b).modLen = none := by
@@ -615,7 +631,8 @@ theorem setFile_valid (data : Bytes) (off len : Option Int)
   rw [readSpec_def]
   unfold setFile
   have hoff : off.getD 0 = offD off := rfl
-  simp only [hoff]
+  have hnn : ¬ (offD off < 0) := by omega
+  simp only [hoff, hnn, if_false]
   by_cases ho : offD off = 0
   · simp only [ho, if_true, Int.toNat_zero, List.drop_zero]
     cases len with
@@ -642,12 +659,13 @@ theorem setFile_valid (data : Bytes) (off len : Option Int)
         rw [List.take_of_length_le hL]
   · simp only [ho, if_false]
     have hpos : 0 < offD off := by omega
+    have c1 : ¬ (offD off > ((Store.len ⟨bytesToBits data, none, true⟩ : Nat) : Int)) := by
+      have := h2
+      cases len <;> simp [Store.len, lenD] at this ⊢ <;> omega
+    simp only [c1, if_false]
     cases len with
     | none =>
       simp only [lenD, Option.getD_none] at h2 h3 ⊢
-      have c1 : ¬ (offD off > ((Store.len ⟨bytesToBits data, none, true⟩ : Nat) : Int)) := by
-        simp [Store.len]; omega
-      simp only [c1, if_false]
       refine ⟨_, rfl, wf_of_none _ (getslice_modLen _ _ _), ?_⟩
       rw [bin_of_none _ (getslice_modLen _ _ _)]
       simp only [Store.getslice]
@@ -680,39 +698,28 @@ theorem setBytes_wf (data : Bytes) (off len : Option Int) (s : Store)
     (h : setBytes data len off = .ok s) : s.WF := by
   apply wf_of_none
   unfold setBytes at h
-  split at h
-  · injection h with h; subst h; rfl
-  · split at h
-    · injection h with h; subst h; exact getslice_modLen _ _ _
-    · simp only at h
-      split at h
-      · cases h
-      · injection h with h; subst h; exact getslice_modLen _ _ _
+  simp only at h
+  repeat' split at h
+  all_goals (cases h <;> first | rfl | exact getslice_modLen _ _ _)
 
 theorem setBytesIO_wf (data : Bytes) (off len : Option Int) (s : Store)
     (h : setBytesIO data len off = .ok s) : s.WF := by
   apply wf_of_none
   unfold setBytesIO at h
-  split at h
-  · injection h with h; subst h; rfl
-  · simp only at h
-    split at h
-    · cases h
-    · injection h with h; subst h; exact getslice_modLen _ _ _
+  simp only at h
+  repeat' split at h
+  all_goals (cases h <;> first | rfl | exact getslice_modLen _ _ _)
 
 theorem setFile_wf (data : Bytes) (off len : Option Int) (s : Store)
     (h : setFile data len off = .ok s) : s.WF := by
   unfold setFile at h
   simp only at h
   split at h
-  · exact frombuffer_wf _ _ _ h
+  · cases h
   · split at h
-    · split at h
-      · cases h
-      · injection h with h; subst h; exact wf_of_none _ (getslice_modLen _ _ _)
-    · split at h
-      · cases h
-      · injection h with h; subst h; exact wf_of_none _ (getslice_modLen _ _ _)
+    · exact frombuffer_wf _ _ _ h
+    · repeat' split at h
+      all_goals (cases h <;> exact wf_of_none _ (getslice_modLen _ _ _))
 
 theorem construct_ok_iff (cls : Cls) (k : Src) (data : Bytes) (off len : Option Int) (s : Store) :
     construct cls k data len off = .ok s ↔
